@@ -1,7 +1,200 @@
-(* C06 lemmas, part 1: basic facts about exec / upd / walks. *)
+(* C06 lemmas, part 1: files, walks, and generic facts about crash states. *)
 From Coq Require Import List Bool Arith Lia.
 From PAFC06 Require Import Model.
 Import ListNotations.
 
+(* ---------- roles and directories ---------- *)
+Lemma role_eqb_eq (a b : role) : role_eqb a b = true <-> a = b.
+Proof. split; [destruct a, b; simpl; intro H; try reflexivity; discriminate | intros ->; destruct b; reflexivity]. Qed.
+
+Lemma role_eqb_refl (a : role) : role_eqb a a = true.
+Proof. destruct a; reflexivity. Qed.
+
+Lemma role_eqb_neq (a b : role) : a <> b -> role_eqb a b = false.
+Proof. intro H. destruct (role_eqb a b) eqn:E; [apply role_eqb_eq in E; contradiction | reflexivity]. Qed.
+
+Lemma upd_same (d : dir) r f : upd d r f r = f.
+Proof. unfold upd. rewrite role_eqb_refl. reflexivity. Qed.
+
+Lemma upd_other (d : dir) r f r' : r <> r' -> upd d r f r' = d r'.
+Proof. intro H. unfold upd. rewrite role_eqb_neq by exact H. reflexivity. Qed.
+
+Lemma all_roles_complete (r : role) : In r all_roles.
+Proof. destruct r; simpl; tauto. Qed.
+
+Lemma mem_In (r : role) (l : list role) : mem r l = true <-> In r l.
+Proof.
+  induction l as [|x l IH]; simpl; [split; [discriminate | tauto]|].
+  rewrite orb_true_iff, IH, role_eqb_eq. split; intros [H|H]; auto.
+Qed.
+
+(* ---------- exec ---------- *)
 Lemma exec_app (a b : list op) (s : fs) : exec (a ++ b) s = exec b (exec a s).
 Proof. unfold exec. apply fold_left_app. Qed.
+
+Lemma exec_cons (o : op) (l : list op) (s : fs) : exec (o :: l) s = exec l (apply o s).
+Proof. reflexivity. Qed.
+
+Lemma exec_nil (s : fs) : exec [] s = s.
+Proof. reflexivity. Qed.
+
+(* removing a list of files *)
+Lemma exec_rm_fd (l : list role) (s : fs) (r : role) :
+  fd (exec (map OR l) s) r = if mem r l then Absent else fd s r.
+Proof.
+  revert s. induction l as [|x l IH]; intro s; [reflexivity|].
+  cbn [map mem]. rewrite exec_cons, IH. cbn [apply fd].
+  destruct (role_eqb r x) eqn:E.
+  - apply role_eqb_eq in E. subst. simpl. destruct (mem x l); [reflexivity | apply upd_same].
+  - simpl. destruct (mem r l); [reflexivity|].
+    apply upd_other. intro H. subst. rewrite role_eqb_refl in E. discriminate.
+Qed.
+
+Lemma exec_rm_fz (l : list role) (s : fs) : fz (exec (map OR l) s) = fz s /\ ftmp (exec (map OR l) s) = ftmp s.
+Proof. revert s. induction l as [|x l IH]; intro s; [simpl; auto|]. cbn [map]. rewrite exec_cons. destruct (IH (apply (OR x) s)) as [A B]. rewrite A, B. auto. Qed.
+
+(* extracting a list of members *)
+Lemma exec_extract_fd (snap : dir) (l : list role) (s : fs) (r : role) :
+  fd (exec (map (fun r => OW r (snap r)) l) s) r = if mem r l then snap r else fd s r.
+Proof.
+  revert s. induction l as [|x l IH]; intro s; [reflexivity|].
+  cbn [map mem]. rewrite exec_cons, IH. cbn [apply fd].
+  destruct (role_eqb r x) eqn:E.
+  - apply role_eqb_eq in E. subst. simpl. destruct (mem x l); [reflexivity | apply upd_same].
+  - simpl. destruct (mem r l); [reflexivity|].
+    apply upd_other. intro H. subst. rewrite role_eqb_refl in E. discriminate.
+Qed.
+
+Lemma exec_extract_fz (snap : dir) (l : list role) (s : fs) :
+  fz (exec (map (fun r => OW r (snap r)) l) s) = fz s /\ ftmp (exec (map (fun r => OW r (snap r)) l) s) = ftmp s.
+Proof. revert s. induction l as [|x l IH]; intro s; [simpl; auto|]. cbn [map]. rewrite exec_cons. destruct (IH (apply (OW x (snap x)) s)) as [A B]. rewrite A, B. auto. Qed.
+
+(* ---------- walk orders: every order lists exactly the files of the set ---------- *)
+Lemma hinted_sound kind inset h seen r : In r (hinted kind inset h seen) -> inset r = true.
+Proof.
+  revert seen. induction h as [|e h IH]; intro seen; simpl; [tauto|].
+  destruct (kind e) as [x|]; [|simpl; tauto].
+  destruct (inset x && negb (mem x seen)) eqn:E; [|simpl; tauto].
+  apply andb_true_iff in E. destruct E as [E _]. simpl. intros [H|H]; [subst; exact E | eapply IH; exact H].
+Qed.
+
+Lemma order_sound kind inset h r : In r (order kind inset h) -> inset r = true.
+Proof.
+  unfold order. rewrite in_app_iff, filter_In. intros [H|[_ H]].
+  - eapply hinted_sound; exact H.
+  - apply andb_true_iff in H. tauto.
+Qed.
+
+Lemma order_complete kind inset h r : inset r = true -> In r (order kind inset h).
+Proof.
+  intro H. unfold order. rewrite in_app_iff, filter_In.
+  destruct (mem r (hinted kind inset h [])) eqn:E.
+  - left. apply mem_In. exact E.
+  - right. split; [apply all_roles_complete | rewrite H; reflexivity].
+Qed.
+
+Lemma mem_order kind inset h r : mem r (order kind inset h) = inset r.
+Proof.
+  destruct (inset r) eqn:E.
+  - apply mem_In. apply order_complete. exact E.
+  - destruct (mem r (order kind inset h)) eqn:M; [|reflexivity].
+    apply mem_In in M. apply order_sound in M. congruence.
+Qed.
+
+(* a complete rmtree empties the set, whatever the order *)
+Lemma exec_rm_ops_fd inset h s r :
+  fd (exec (rm_ops inset h) s) r = if inset r then Absent else fd s r.
+Proof. unfold rm_ops. rewrite exec_rm_fd, mem_order. reflexivity. Qed.
+
+Lemma exec_rm_ops_fz inset h s : fz (exec (rm_ops inset h) s) = fz s /\ ftmp (exec (rm_ops inset h) s) = ftmp s.
+Proof. unfold rm_ops. apply exec_rm_fz. Qed.
+
+Lemma exec_rm_all_fd h s r : fd (exec (rm_ops (present (fd s)) h) s) r = Absent.
+Proof. rewrite exec_rm_ops_fd. unfold present. destruct (fd s r); reflexivity. Qed.
+
+(* a complete extraction over an empty folder reproduces the archive, whatever the order *)
+Lemma exec_extract_ops_fd snap h s r :
+  (forall r, fd s r = Absent) -> fd (exec (extract_ops snap h) s) r = snap r.
+Proof.
+  intro H. unfold extract_ops. rewrite exec_extract_fd, mem_order. unfold present.
+  destruct (snap r) eqn:E; [apply H | reflexivity | reflexivity].
+Qed.
+
+Lemma exec_extract_ops_fz snap h s :
+  fz (exec (extract_ops snap h) s) = fz s /\ ftmp (exec (extract_ops snap h) s) = ftmp s.
+Proof. unfold extract_ops. apply exec_extract_fz. Qed.
+
+Lemma In_rm_ops inset h o : In o (rm_ops inset h) -> exists r, o = OR r /\ inset r = true.
+Proof.
+  unfold rm_ops. rewrite in_map_iff. intros [r [<- H]]. exists r. split; [reflexivity|].
+  eapply order_sound; exact H.
+Qed.
+
+Lemma In_extract_ops snap h o : In o (extract_ops snap h) -> exists r, o = OW r (snap r) /\ present snap r = true.
+Proof.
+  unfold extract_ops. rewrite in_map_iff. intros [r [<- H]]. exists r. split; [reflexivity|].
+  eapply order_sound; exact H.
+Qed.
+
+(* ---------- crash states ---------- *)
+Lemma crash_state_app_l a b k v s : k < length a -> crash_state (a ++ b) k v s = crash_state a k v s.
+Proof.
+  intro H. unfold crash_state.
+  rewrite nth_error_app1 by exact H.
+  rewrite firstn_app. replace (k - length a) with 0 by lia. simpl. rewrite app_nil_r. reflexivity.
+Qed.
+
+Lemma crash_state_app_r a b k v s : length a <= k -> crash_state (a ++ b) k v s = crash_state b (k - length a) v (exec a s).
+Proof.
+  intro H. unfold crash_state.
+  rewrite nth_error_app2 by exact H.
+  rewrite firstn_app, exec_app. rewrite (firstn_all2 a H). reflexivity.
+Qed.
+
+Lemma crash_state_nil k v s : crash_state [] k v s = s.
+Proof. unfold crash_state. destruct k; reflexivity. Qed.
+
+Lemma crash_state_ge ops k v s : length ops <= k -> crash_state ops k v s = exec ops s.
+Proof.
+  intro H. unfold crash_state. rewrite firstn_all2 by exact H.
+  destruct (nth_error ops k) eqn:E; [|reflexivity].
+  assert (k < length ops) by (apply nth_error_Some; congruence). lia.
+Qed.
+
+(* sequential composition: a property of all crash states of a ++ b *)
+Lemma crash_seq (Q : fs -> Prop) a b s :
+  (forall k v, Q (crash_state a k v s)) ->
+  (forall k v, Q (crash_state b k v (exec a s))) ->
+  forall k v, Q (crash_state (a ++ b) k v s).
+Proof.
+  intros Ha Hb k v. destruct (lt_dec k (length a)) as [L|L].
+  - rewrite crash_state_app_l by exact L. apply Ha.
+  - rewrite crash_state_app_r by lia. apply Hb.
+Qed.
+
+(* a segment all of whose operations preserve J, and whose interrupted operations land in Q *)
+Lemma crash_uniform (J Q : fs -> Prop) (Good : op -> Prop) ops s :
+  J s -> Forall Good ops ->
+  (forall o s', Good o -> J s' -> J (apply o s')) ->
+  (forall o s', Good o -> J s' -> Q (apply_empty o s') /\ Q (cut o (apply o s'))) ->
+  (forall s', J s' -> Q s') ->
+  (forall k v, Q (crash_state ops k v s)) /\ J (exec ops s).
+Proof.
+  intros HJ HG Hstep Hcr HQ. revert s HJ. induction HG as [|o ops Go _ IH]; intros s HJ.
+  - split; [intros k v; rewrite crash_state_nil; apply HQ; exact HJ | exact HJ].
+  - destruct (IH (apply o s) (Hstep o s Go HJ)) as [A B]. split; [|rewrite exec_cons; exact B].
+    intros k v. destruct k as [|k].
+    + unfold crash_state. simpl. destruct v; [apply HQ; exact HJ | apply Hcr; assumption | apply Hcr; assumption].
+    + change (o :: ops) with ([o] ++ ops). rewrite crash_state_app_r by (simpl; lia).
+      simpl. rewrite Nat.sub_0_r. apply A.
+Qed.
+
+Lemma exec_uniform (J : fs -> Prop) (Good : op -> Prop) ops s :
+  J s -> Forall Good ops -> (forall o s', Good o -> J s' -> J (apply o s')) -> J (exec ops s).
+Proof.
+  intros HJ HG Hstep. revert s HJ. induction HG as [|o ops Go _ IH]; intros s HJ; [exact HJ|].
+  rewrite exec_cons. apply IH. apply Hstep; assumption.
+Qed.
+
+Lemma Forall_app_intro {A} (P : A -> Prop) a b : Forall P a -> Forall P b -> Forall P (a ++ b).
+Proof. intros. apply Forall_app. split; assumption. Qed.
